@@ -92,8 +92,8 @@ def spinfo_entries(stdout):
     res, inside = [], False
     for l in stdout.split("\n"):
         t = l.split()
-        if t and t[0].lower() == "block":
-            inside = len(t) > 1 and t[1].upper() == "SPINFO"
+        if len(t) > 1 and t[0].lower() == "block":   # (a line "Block" without a name is not a block header for the SLHA reader either: it stays a line of the current block)
+            inside = t[1].upper() == "SPINFO"
         elif inside and len(t) > 1 and t[0] in ("3", "4"):
             res.append(l)
     return res
